@@ -12,6 +12,10 @@ package executor
 //@ axiom genesisStateRootKey.string == dskey("/genesis/stateroot")
 //@ axiom finalizedHeightKey.string == dskey("/finalizedHeight")
 
+// What a transaction "key=value" writes: the key and the value, as functions of its bytes.
+//@ pred TxKey(c) := dskey(trimSpace(splitPart(strOf(c), "=", 2, 0)))
+//@ pred TxVal(c) := bytesOf(trimSpace(splitPart(strOf(c), "=", 2, 1)))
+
 //@ func (k *KVExecutor) SetFinal(ctx, blockHeight) (err)
 //@   property C15
 //@   requires [wiring] k.db != nil
@@ -22,6 +26,7 @@ package executor
 //@ func (k *KVExecutor) computeStateRoot(ctx) (root, err)
 //@   property C15
 //@   requires [wiring] k.db != nil
+//@   ensures [reads-to-the-end] err == nil ==> !recvOpen("Next")
 //@   loop 1 invariant [root-excludes-reserved] len(keys) == iter(len(keys)) + 1 ==> !Reserved(dskey(result.Key))
 //@   loop 1 invariant [root-includes-app] recvCount("Next") == 1 && result.Error == nil && !Reserved(dskey(result.Key)) ==> len(keys) == iter(len(keys)) + 1
 //@   loop 1 invariant [one-key-per-result] len(keys) == iter(len(keys)) || len(keys) == iter(len(keys)) + 1
@@ -38,6 +43,12 @@ package executor
 //@   ensures [reserved-protected] forall key :: Reserved(key) ==> k.db.kv[key] == old(k.db.kv[key]) && k.db.kvHas[key] == old(k.db.kvHas[key])
 //@   loop 1 invariant [staged-only-app-keys] bt && bt.res1 == nil && forall key :: bt.res0.pendHas[key] ==> !Reserved(key)
 //@   loop 1 invariant [nothing-written-yet] cm.count == 0 && k.db.kv == old(k.db.kv) && k.db.kvHas == old(k.db.kvHas)
+//@   loop 1 invariant [every-tx-staged] rangeindex >= -1 && rangeindex < len(txs) && bt.res0.count == rangeindex + 1 && forall j :: 0 <= j && j <= rangeindex ==> bt.res0.pendHas[TxKey(val(txs[j]))]
+//@   loop 1 invariant [last-write-staged] forall j :: 0 <= j && j <= rangeindex && (forall l :: j < l && l <= rangeindex ==> TxKey(val(txs[l])) != TxKey(val(txs[j]))) ==> bt.res0.pend[TxKey(val(txs[j]))] == TxVal(val(txs[j]))
+//@   loop 1 invariant [only-txs-staged] forall key :: bt.res0.pendHas[key] ==> exists j :: 0 <= j && j <= rangeindex && TxKey(val(txs[j])) == key
+//@   ensures [every-tx-written] err == nil ==> forall j :: 0 <= j && j < len(txs) ==> k.db.kvHas[TxKey(val(txs[j]))]
+//@   ensures [last-write-wins] err == nil ==> forall j :: 0 <= j && j < len(txs) && (forall l :: j < l && l < len(txs) ==> TxKey(val(txs[l])) != TxKey(val(txs[j]))) ==> k.db.kv[TxKey(val(txs[j]))] == TxVal(val(txs[j]))
+//@   ensures [others-untouched] err == nil ==> forall key :: (forall j :: 0 <= j && j < len(txs) ==> TxKey(val(txs[j])) != key) ==> k.db.kv[key] == old(k.db.kv)[key] && k.db.kvHas[key] == old(k.db.kvHas)[key]
 
 //@ func (k *KVExecutor) InitChain(ctx, genesisTime, initialHeight, chainID) (root, maxBytes, err)
 //@   property C15
